@@ -7,7 +7,7 @@ ops
        l4 = `tcp <sport> <dport> <seq> <ack> <payload> <p> <seg>` | `udp <sport> <dport> <payload> <p> <seg>` | `none`
   framed <base> <cbase> <hex> the same with the Python frame depth / C recursion units of the caller of `Packet(...)` given (RecursionError boundary)
   file <legacy 0|1> <c 0|1> <hex>  → one token per item, `-` for none, or `err:<kind>`
-       `dsb:<label>.<client_random>.<value>,…`   (`dsb:` for no keys)
+       `dsb:<label>.<client_random>.<value>,…`   (`dsb:` for no keys; the three fields in hex)
        `pkt:<tag>:<l4>:<sip>:<sport>:<dip>:<dport>:<csumOk>:<seq>:<ts µs>:<smac>:<dmac>:<v6>:<payload>`
 -/
 import TLX.Drv.Core
@@ -28,7 +28,7 @@ def showD : Except DErr Dissected → String
   | .ok (.ip x) =>
     s!"ip {if x.v6 then 1 else 0} {hx x.srcMac} {hx x.dstMac} {hx x.src} {hx x.dst} {showL4 x.p x.seg x.l4}"
 
-def str (s : Keylog.Str) : String := TLX.Drv.asciiStr s
+def str (s : Keylog.Str) : String := Bytes.toHex (s.map UInt8.ofNat)
 
 def showItem (info : Nat → Pipeline.Info) : MainLoop.Item Keylog.Key → String
   | .dsb ks => "dsb:" ++ ",".intercalate (ks.map fun k => s!"{str k.label}.{str k.clientRandom}.{str k.value}")
